@@ -11,6 +11,8 @@ fn main() {
         std::process::exit(2);
     }
     let family = args[1].clone();
+    if family == "untrusted-worker" { fam::untrusted::worker(&args[2], &args[3], args[4].parse().unwrap_or(0)); return; }
+    if family == "debugload" { fam::untrusted::debug_load(&args[2]); return; }
     if family == "qlrefusals" { install_panic_hook(); fam::stamql::refusal_histogram(1, 3000); return; }
     let mut opts = Opts {
         tier: std::env::var("VERIF_TIER").unwrap_or_else(|_| "quick".into()),
@@ -60,7 +62,9 @@ fn replay(path: &str, opts: &Opts) {
     let mut rep = Report::new("replay", "");
     let mut proto = vec![];
     let mut outs = vec![];
-    if lines.iter().any(|l| l.starts_with("ccfg")) {
+    if lines.iter().any(|l| l.starts_with("ut format=")) {
+        fam::untrusted::replay(&lines);
+    } else if lines.iter().any(|l| l.starts_with("ccfg")) {
         fam::concurrent::replay(&lines);
     } else if lines.iter().any(|l| l.starts_with("wa seed=")) {
         fam::webanno::replay(&lines);
